@@ -410,6 +410,12 @@ def run(ctx):
         order = rnd.choice([7, 7, 9])
         sps = rnd.choice([2, 4, 8])
         slots = PRBS(order, rnd.choice([2 ** order - 1, 100, 64]), seed=rnd.randrange(1, 100))
+        if k % 10 == 7:      # a long pattern whose first 512 slots recur later in the period: [A, A, B]
+            from opticomlib.typing import binary_sequence as _bs
+            A_ = PRBS(9, 512, seed=3 + k).data
+            B_ = PRBS(11, 300, seed=5 + k).data
+            slots = _bs(np.concatenate([A_, A_, B_]))
+            sps, order = 8, 1
         if k % 5 == 4:       # short words with a single cyclic correlation peak (a 12-slot word, Barker-13, a 16-slot word)
             from opticomlib.typing import binary_sequence as _bs
             slots = _bs(["111001011000", "1111100110101", "1110010110000100"][(k // 5) % 3])
